@@ -124,6 +124,10 @@ def main():
         for k in ("breaks", "needs_to_manifest", "kept", "produced_by", "what_i_ran", "missed_by_first_version_of_check"):
             if k in old:
                 meta[k] = old[k]
+        if a.skip_tests:    # a re-check of the checks only: keep what the earlier full evaluation recorded
+            for k in ("tests_tail", "tests_missing_from_baseline", "tests_pass_like_baseline"):
+                if k in old:
+                    meta[k] = old[k]
         json.dump(meta, open(mp, "w"), indent=1)
         print(json.dumps({k: meta[k] for k in ("confirmed", "demo_without_change_exit", "demo_with_change_exit",
                                                "caught_by") if k in meta}))
